@@ -244,6 +244,18 @@ func (e *Engine) objValue(env *Env, obj types.Object) TV {
 
 func (e *Engine) localByName(env *Env, name string) (TV, bool) {
 	fr := env.fr
+	// a variable captured by the function literal under verification
+	for _, fv := range fr.fn.FreeVars {
+		if fv.Name() != name {
+			continue
+		}
+		pv, ok := fr.regs[fv]
+		pt, isPtr := fv.Type().(*types.Pointer)
+		if !ok || !isPtr {
+			break
+		}
+		return TV{V: e.load(nil, env.cur, pv, pt.Elem(), "spec"), T: pt.Elem()}, true
+	}
 	want := name
 	ord := 0
 	if i := strings.Index(name, "__"); i > 0 {
